@@ -44,6 +44,10 @@ def run(ctx):
   einsum_letters(ctx)
   ds_stat_flow(ctx)
   shared(ctx)
+  # every per-statistic operand of the batched root computation (statistic, exponent, padding, previous root) is taken
+  # from the same replica slot: a statistic must never meet another parameter's exponent
+  from . import C13
+  C13.axis_names(ctx)
 
 
 def _letters_summary(ev, bound, rec):
